@@ -113,12 +113,16 @@ def judge_a(t):
                 V('C10.4-nodeps', 'dependency %s is reported %s under noDeps' % (m, R.get(m)), what='dependency-status', status=str(R.get(m)))
             if m in puts and m not in borrowed:
                 V('C10.4-nodeps', 'dependency %s was written under noDeps' % m, what='dependency-written')
+    # a module obtained from a borrower goes through the searchers as well (its copy may already be in place)
+    for m in sorted(borrowed):
+        if nse and (m, 1) not in per and str(R.get(m)) == 'borrowed':
+            V('C10.1-searcher-order', 'borrowed module %s was written without asking the searchers' % m, what='borrowed-not-searched', rebuild=rebuild)
     # rebuild defeats file-like freshness but not stub lists
     if rebuild:
         for i, s in enumerate(scn.get('searchers', ())):
             if s.get('flavour') in ('stub', 'realstub'):
                 for m, a in s.get('answers', {}).items():
-                    if a == 'fresh' and any(c.comp == i and c.mib == m and not c.injected and c.seq < first_b for c in t.by('searcher.fileExists')):
+                    if a == 'fresh' and any(c.comp == i and c.mib == m and not c.injected for c in t.by('searcher.fileExists')):
                         if str(R.get(m)) != 'untouched':
                             V('C10.3-rebuild', 'stub-listed %s is reported %s under rebuild' % (m, R.get(m)), what='stub-defeated')
                         t.world.probe('stub-hit-under-rebuild')
@@ -191,6 +195,57 @@ def _populate_b(scn, d):
                     with open(p, 'w') as f:
                         f.write('distractor\n')
                     os.utime(p, (T0 + 5000, T0 + 5000))
+
+
+def run_late_pkg(scn):
+    """PyPackageSearcher asked while its package does not exist yet, then again after the package has appeared with an
+    up-to-date module (one long-lived searcher object)."""
+    from pysmi import error
+    from pysmi.searcher import PyPackageSearcher
+    root = core.new_root('c10p')
+    viol = []
+    pkgname = 'simpkg_late'
+    try:
+        sys.path.insert(0, root)
+        importlib.invalidate_caches()
+        s = PyPackageSearcher(pkgname)
+        w = core.World(root=root, clock=T0 + 2000)
+        answers = []
+        with w:
+            for step in (0, 1):
+                if step == 1:
+                    base = dict(scn, searcher='pkg', main='file+1', pyc='none', distract=scn.get('distract', False), skew=0)
+                    _populate_b(base, os.path.join(root, pkgname))
+                    importlib.invalidate_caches()
+                w.begin_op(step, 'fileExists')
+                try:
+                    s.fileExists(scn['name'], T0, rebuild=False)
+                    ans = 'returned'
+                except error.PySmiFileNotModifiedError:
+                    ans = 'fresh'
+                except error.PySmiFileNotFoundError:
+                    ans = 'stale'
+                except error.PySmiSearcherError:
+                    ans = 'error'
+                except BaseException as e:  # noqa
+                    ans = 'foreign:%s' % type(e).__name__
+                w.end_op(ans)
+                answers.append(ans)
+        if answers != ['stale', 'fresh']:
+            viol.append({'clause': 'C10.6-file-searcher', 'key': 'C10.6-file-searcher|late-package', 'facts': {'what': 'late-package', 'answers': answers, 'searcher': 'pkg'},
+                         'message': 'PyPackageSearcher answered %s before/after its package appeared with an up-to-date module; expected stale, fresh' % answers})
+        fp, fph = w.fingerprints(extra=answers)
+        return {'violations': viol, 'sig': json.dumps(['b-late', answers]), 'nontrivial': True, 'events': len(w.log), 'sim_s': 0, 'fired': {}, 'probes': {'layer-b-late-package': 1},
+                'fp': fp, 'fph': fph, 'comps': {'searcher.fileExists(real)': 2}, 'answer': answers}
+    finally:
+        try:
+            sys.path.remove(root)
+        except ValueError:
+            pass
+        for k in [k for k in sys.modules if k == pkgname or k.startswith(pkgname + '.')]:
+            del sys.modules[k]
+        sys.path_importer_cache.pop(root, None)
+        core.drop_root(root)
 
 
 def _expected_b(scn):
@@ -303,10 +358,10 @@ def gen_c(rng, tier):
         elif r < 0.75:
             ops.append({'op': 'touch', 'name': rng.choice(names + list(basemibs.BASE_NAMES))})
         else:
-            ops.append({'op': 'advance', 'dt': rng.choice([0, 1, 1, 2, 100, -1, -50])})
+            ops.append({'op': 'advance', 'dt': rng.choice([0, 1, 1, 2, 100, -1, -50, 0.25, 0.5, 0.75, 1.5])})
     if not any(o['op'] == 'compile' for o in ops):
         ops.append({'op': 'compile', 'names': [names[-1]], 'options': {}})
-    return {'layer': 'c', 'modules': specs, 'ops': ops, 'src_skew': rng.choice([0, 0, 0, 1, -1, 300, -300]), 'listing_seed': rng.randrange(1 << 30),
+    return {'layer': 'c', 'modules': specs, 'ops': ops, 'src_skew': rng.choice([0, 0, 0, 1, -1, 300, -300, 0.5, -0.5]), 'listing_seed': rng.randrange(1 << 30),
             'persistent': rng.random() < 0.5}
 
 
@@ -384,14 +439,20 @@ def run_c(scn):
                             todo.extend(specs[n]['imports'])
                         todo.extend(basemibs.BASE_NAMES)
                     for n in clo:
+                        if n in dst_m and (dst_m[n] >= src_m[n]) != (int(dst_m[n] // 1) >= int(src_m[n] // 1)):
+                            # sub-second order and whole-second order disagree: either answer is defensible
+                            w.probe('c-subsecond-ambiguous-not-judged')
+                            if str(R.get(n)) == 'compiled':
+                                dst_m[n] = w.now
+                            continue
                         uptodate = (not rebuild) and n in dst_m and dst_m[n] >= src_m[n]
                         eligible = (not noDeps) or n in op['names']
                         expect = 'untouched' if (uptodate or not eligible) else 'compiled'
                         got = str(R.get(n))
                         changed = before.get(n + '.json') != after.get(n + '.json')
                         if got != expect:
-                            V('C10.7-history', 'operation %d: %s is reported %s, the model (source mtime %d, destination mtime %s, rebuild=%s, noDeps=%s) says %s' % (
-                                i, n, got, src_m[n] - core.EPOCH0, dst_m[n] - core.EPOCH0 if n in dst_m else None, rebuild, noDeps, expect),
+                            V('C10.7-history', 'operation %d: %s is reported %s, the model (source mtime %s, destination mtime %s, rebuild=%s, noDeps=%s) says %s' % (
+                                i, n, got, round(src_m[n] - core.EPOCH0, 2), round(dst_m[n] - core.EPOCH0, 2) if n in dst_m else None, rebuild, noDeps, expect),
                               what='status:%s-not-%s' % (got, expect), relation=('absent' if n not in dst_m else 'eq' if dst_m[n] == src_m[n] else 'newer' if dst_m[n] > src_m[n] else 'older'))
                         if expect == 'untouched' and changed:
                             V('C10.7-history', 'operation %d: %s is up to date but its file was rewritten' % (i, n), what='rewritten')
@@ -414,6 +475,8 @@ def run_c(scn):
 # ==========================================================================
 def run(scn):
     layer = scn.get('layer', 'a')
+    if layer == 'b' and scn.get('late_pkg'):
+        return run_late_pkg(scn)
     if layer == 'b':
         return run_b(scn)
     if layer == 'c':
@@ -456,6 +519,8 @@ def generate(rng, tier):
         base = dict(base)
         base['skew'] = rng.choice([0, 0, 1, -1, 2, -2, 3600, -3600])
         base['name'] = rng.choice(['AAA-MIB', 'Foo-Mib', 'Xy'])
+        if rng.random() < 0.15:
+            base['late_pkg'] = True
         return base
     return gen_c(rng, tier)
 
